@@ -12,15 +12,15 @@ PROVED here (for ALL flow programs, i.e. all IR projects through `compile`):
    `oracle_canRet_correct`; per round / relative to given summaries: `exposedB_iff`, `canRetB_iff`,
    `flaggedB_iff` ("MOP = MFP" for this gen/kill problem is reachability in the graph of
    `r`-preserving edges);
- * the model of the register fragment of `function_signature::State` is sound for every read that the
-   analysis can record by design (`FlaggedT`: the reading instruction has a successor; callee reads
-   lie on a returning path): every closed assignment of the model's fixpoint problem flags the
-   register at some node — `model_sound`, through `Base.Fix.sound_of_closed` with
+ * the model of the register fragment of `function_signature::State` is sound for every read performed
+   by an instruction of the function itself (with or without control-flow successor — the latter since
+   the repair of `extract_fn_signatures_from_fixpoint`) and for callee reads on a returning path
+   (`FlaggedX`): every closed assignment of the model's fixpoint problem has the register in the
+   extracted signature — `model_sound`, through `Base.Fix.sound_of_closed` (`path_below`) with
    `transfer_mono` ("sound_step") and `join_upper` ("merge keeps flags").
-NOT proved, and FALSE for the real analysis (known findings `lost-read-at-exit`,
-`lost-read-in-callee`): `Exposed → reported` for reads performed by an instruction without successor
-(return target, indirect jump without known targets, non-returning call) and for reads of a callee
-on a path that does not return. `gap_example` exhibits the difference between `Exposed` and `FlaggedT`.
+NOT proved, and FALSE for the real analysis (known finding `lost-read-in-callee`): `Exposed → reported`
+for reads of a callee on a path that does not return (or a callee that never returns / a tail call).
+`gap_example` exhibits this difference between `Exposed` and `FlaggedX`.
 The real analysis (~3700 lines) is VALIDATED against the oracle, not modelled beyond this fragment.
 -/
 import CweModel.C14.Model
@@ -159,6 +159,20 @@ theorem flaggedB_iff (P : FProg) (T : Tables) (f r : Nat) (tgt : Nat → Bool) :
     flaggedB P T f r tgt = true ↔ FlaggedT P T f r tgt := by
   simp only [flaggedB, List.contains_iff_mem]
   exact mem_coreach_iff (fun _ h => nextR_none h) (fun _ h => goalR_lt h) 0
+
+theorem goalX_lt {P : FProg} {T : Tables} {f r n : Nat} (h : goalX P T f r n = true) : n < P.size f := by
+  simp only [goalX, Bool.or_eq_true] at h
+  rcases h with h | h
+  · cases hn : P.node f n with
+    | none => simp [hn] at h
+    | some nd => exact (node_lt hn).2
+  · exact goalR_lt h
+
+/-- **C14-flaggedX-round.** … and for the reads the repaired analysis records in a signature -/
+theorem flaggedXB_iff (P : FProg) (T : Tables) (f r : Nat) :
+    flaggedXB P T f r = true ↔ FlaggedX P T f r := by
+  simp only [flaggedXB, List.contains_iff_mem]
+  exact mem_coreach_iff (fun _ h => nextR_none h) (fun _ h => goalX_lt h) 0
 
 /-! ### soundness of the summary iteration -/
 
@@ -464,12 +478,31 @@ theorem path_holds {P : FProg} {T : Tables} {f r : Nat} (hinit : (initSt P f).ho
     rw [transfer_holds, hh, testBit_maskOf]
     simp [hk]
 
-/-- **C14-model-sound.** Let `S` be ANY closed assignment (post-fixpoint) of the model's fixpoint problem
-of function `f` whose entry value covers the start state (every parameter register holds its id).
-If register `r` is a parameter register of `f` and is read — in the sense the analysis can record,
-`FlaggedT` — on a path from the entry before being overwritten, then some node state of `S` has the
-read flag of `r` set, i.e. `r` is in the merged signature (`allFlags`). -/
-theorem model_sound {P : FProg} {T : Tables} {f r : Nat} {S : Fix.Assign St}
+/-- the meta-theorem (`Base.Fix.sound_of_closed`): every exact path state is below the value of a closed
+assignment at its node -/
+theorem path_below {P : FProg} {T : Tables} {f : Nat} {S : Fix.Assign St}
+    (hS : Fix.Closed (problem P T f) S) (h0 : ∃ a, S 0 = some a ∧ St.le (initSt P f) a)
+    {m : Nat} {c : St} (hc : Fix.Reach (problem P T f) (pathInit P f) pathStep m c) :
+    ∃ a, S m = some a ∧ St.le c a :=
+  Fix.sound_of_closed (P := problem P T f) (γ := fun a c => St.le c a)
+    (init := pathInit P f) (cstep := pathStep)
+    (fun x b c hx => join_upper c x b hx)
+    (by
+      intro e he a c c' hγ hstep
+      obtain ⟨nd', _, _, hf⟩ := mem_problem_edges.mp he
+      simp only [pathStep, hf, Option.some.injEq] at hstep
+      subst hstep
+      exact ⟨_, by rw [hf], transfer_mono _ _ hγ⟩)
+    hS
+    (by
+      rintro i c ⟨rfl, rfl⟩
+      exact h0)
+    hc
+
+/-- **C14-model-sound-edges.** Reads recorded on an outgoing edge (`FlaggedT`: the reading instruction
+has a successor; for a call to an internal function: the callee's summary) are flagged in the state of
+that successor. -/
+theorem model_sound_edges {P : FProg} {T : Tables} {f r : Nat} {S : Fix.Assign St}
     (hS : Fix.Closed (problem P T f) S) (h0 : ∃ a, S 0 = some a ∧ St.le (initSt P f) a)
     (hparam : (initSt P f).holds.testBit r = true)
     (h : FlaggedT P T f r (fun _ => true)) : ∃ n a, S n = some a ∧ a.flags.testBit r = true := by
@@ -484,22 +517,7 @@ theorem model_sound {P : FProg} {T : Tables} {f r : Nat} {S : Fix.Assign St}
     have he : e ∈ (problem P T f).edges := mem_problem_edges.mpr ⟨nd, hn, hm', rfl⟩
     have hc' : Fix.Reach (problem P T f) (pathInit P f) pathStep m'
         (transfer (readMaskOf T nd) (maskOf nd.kills) c) := Fix.Reach.step (e := e) he hc rfl
-    -- the meta-theorem: every exact path state is below the assignment
-    have hmeta := Fix.sound_of_closed (P := problem P T f) (γ := fun a c => St.le c a)
-      (init := pathInit P f) (cstep := pathStep)
-      (fun x b c hx => join_upper c x b hx)
-      (by
-        intro e he a c c' hγ hstep
-        obtain ⟨nd', _, _, hf⟩ := mem_problem_edges.mp he
-        simp only [pathStep, hf, Option.some.injEq] at hstep
-        subst hstep
-        exact ⟨_, by rw [hf], transfer_mono _ _ hγ⟩)
-      hS
-      (by
-        rintro i c ⟨rfl, rfl⟩
-        exact h0)
-      hc'
-    obtain ⟨a, ha, hle⟩ := hmeta
+    obtain ⟨a, ha, hle⟩ := path_below hS h0 hc'
     refine ⟨m', a, ha, ?_⟩
     apply ((St.le_iff _ _).mp hle).2 r
     rw [transfer_flags, hh]
@@ -513,6 +531,41 @@ theorem model_sound {P : FProg} {T : Tables} {f r : Nat} {S : Fix.Assign St}
         | none => simp [hcall] at hgoal
         | some g => simp only [hcall] at hgoal; exact Or.inr (by simpa using hgoal)
     simp [this]
+
+/-- **C14-model-sound.** Let `S` be ANY closed assignment (post-fixpoint) of the model's fixpoint problem
+of function `f` whose entry value covers the start state (every parameter register holds its id).
+If register `r` is a parameter register of `f` and is read on a path from the entry before being
+overwritten — by ANY instruction of `f` itself, with or without control-flow successor, or by a callee
+on a path that returns (`FlaggedX`) — then for some node the flags of its state after the accesses of
+its instruction (`exitFlagsAt`, what `extract_fn_signatures_from_fixpoint` merges) contain `r`. -/
+theorem model_sound {P : FProg} {T : Tables} {f r : Nat} {S : Fix.Assign St}
+    (hS : Fix.Closed (problem P T f) S) (h0 : ∃ a, S 0 = some a ∧ St.le (initSt P f) a)
+    (hparam : (initSt P f).holds.testBit r = true)
+    (h : FlaggedX P T f r) : ∃ n a, S n = some a ∧ (exitFlagsAt P f n a).testBit r = true := by
+  obtain ⟨m, hr, hg⟩ := h
+  simp only [goalX, Bool.or_eq_true] at hg
+  rcases hg with hg | hg
+  · -- the instruction at `m` reads `r` itself
+    cases hn : P.node f m with
+    | none => simp [hn] at hg
+    | some nd =>
+      simp only [hn] at hg
+      obtain ⟨c, hc, hh⟩ := path_holds (T := T) hparam hr
+      obtain ⟨a, ha, hle⟩ := path_below hS h0 hc
+      refine ⟨m, a, ha, ?_⟩
+      have hah : a.holds.testBit r = true := ((St.le_iff _ _).mp hle).1 r hh
+      have hmask : (localMask nd).testBit r = true := by
+        rw [localMask, testBit_maskOf]
+        simp only [List.contains_iff_mem, List.mem_append] at hg ⊢
+        exact Or.inl hg
+      simp [exitFlagsAt, hn, exitFlags, Nat.testBit_or, Nat.testBit_and, hah, hmask]
+  · -- recorded on an edge
+    obtain ⟨n, a, ha, hbit⟩ := model_sound_edges hS h0 hparam ⟨m, hr, hg⟩
+    refine ⟨n, a, ha, ?_⟩
+    unfold exitFlagsAt
+    cases hn : P.node f n with
+    | none => exact hbit
+    | some nd => simp [exitFlags, Nat.testBit_or, hbit]
 
 /-! ### executable checks used by the driver mean what they say -/
 
@@ -549,22 +602,52 @@ theorem testBit_allFlags_aux (σ : Sol) (m0 r : Nat) :
         · exact Or.inl (Or.inr h)
         · exact Or.inr ⟨s', hs', h⟩
 
+theorem testBit_foldl_or (l : List Nat) (g : Nat → Nat) (m0 r : Nat) :
+    (l.foldl (fun m n => m ||| g n) m0).testBit r = true ↔
+      m0.testBit r = true ∨ ∃ n ∈ l, (g n).testBit r = true := by
+  induction l generalizing m0 with
+  | nil => simp
+  | cons a l ih =>
+    rw [List.foldl_cons, ih]
+    simp only [Nat.testBit_or, Bool.or_eq_true, List.mem_cons]
+    constructor
+    · rintro ((h | h) | ⟨n, hn, h⟩)
+      · exact Or.inl h
+      · exact Or.inr ⟨a, Or.inl rfl, h⟩
+      · exact Or.inr ⟨n, Or.inr hn, h⟩
+    · rintro (h | ⟨n, rfl | hn, h⟩)
+      · exact Or.inl (Or.inl h)
+      · exact Or.inl (Or.inr h)
+      · exact Or.inr ⟨n, hn, h⟩
+
+theorem testBit_allFlagsX (P : FProg) (f : Nat) (σ : Sol) (r : Nat) :
+    (allFlagsX P f σ).testBit r = true ↔
+      ∃ n s, Sol.get σ n = some s ∧ (exitFlagsAt P f n s).testBit r = true := by
+  unfold allFlagsX
+  rw [testBit_foldl_or]
+  simp only [Nat.zero_testBit, Bool.false_eq_true, false_or, List.mem_range]
+  constructor
+  · rintro ⟨n, _, h⟩
+    unfold contribX at h
+    cases hs : Sol.get σ n with
+    | none => simp [hs] at h
+    | some s => simp only [hs] at h; exact ⟨n, s, hs, h⟩
+  · rintro ⟨n, s, hs, h⟩
+    refine ⟨n, ?_, by simp [contribX, hs, h]⟩
+    simp only [Sol.get] at hs
+    cases hx : σ[n]? with
+    | none => simp [hx] at hs
+    | some v => exact (List.getElem?_eq_some_iff.mp hx).1
+
 /-- **C14-model-sound-exec.** the form evaluated by the driver: if `closedB` accepts the computed
-solution, its merged flags contain every recordable read of a parameter register. -/
+solution, the signature extracted from it (`allFlagsX`) contains every parameter register that the
+oracle `flaggedXB` finds. -/
 theorem model_sound_exec {P : FProg} {T : Tables} {f r : Nat} {σ : Sol}
     (hcl : closedB P T f σ = true) (h0 : ∃ a, Sol.get σ 0 = some a ∧ St.le (initSt P f) a)
     (hparam : (initSt P f).holds.testBit r = true)
-    (h : flaggedB P T f r (fun _ => true) = true) : (allFlags σ).testBit r = true := by
-  obtain ⟨n, a, ha, hbit⟩ := model_sound (closedB_closed hcl) h0 hparam ((flaggedB_iff P T f r _).mp h)
-  rw [allFlags, testBit_allFlags_aux]
-  refine Or.inr ⟨a, ?_, hbit⟩
-  simp only [Sol.get] at ha
-  cases hx : σ[n]? with
-  | none => simp [hx] at ha
-  | some v =>
-    simp only [hx, Option.join_some] at ha
-    subst ha
-    exact List.mem_of_getElem? hx
+    (h : flaggedXB P T f r = true) : (allFlagsX P f σ).testBit r = true := by
+  obtain ⟨n, a, ha, hbit⟩ := model_sound (closedB_closed hcl) h0 hparam ((flaggedXB_iff P T f r).mp h)
+  exact (testBit_allFlagsX P f σ r).mpr ⟨n, a, ha, hbit⟩
 
 /-! ### non-vacuity -/
 
@@ -590,16 +673,37 @@ example : Exposed exP 0 0 0 := (oracle_correct exP 5 8 exT exT_eq (by decide) (b
 example : ¬ Exposed exP 0 0 1 := fun h =>
   absurd ((oracle_correct exP 5 8 exT exT_eq (by decide) (by decide)).mpr h) (by decide)
 
-/-- **the gap**: register 3 is read only by the `return` (no successor): exposed, but not recordable. -/
-theorem gap_example : Exposed exP 0 0 3 ∧ ¬ FlaggedT exP exTR 0 3 (fun _ => true) :=
-  ⟨(oracle_correct exP 5 8 exT exT_eq (by decide) (by decide)).mp (by decide),
-   fun h => absurd ((flaggedB_iff _ _ _ _ _).mpr h) (by decide)⟩
+/-- register 3 is read only by the `return` (no successor): recorded since the repair -/
+example : FlaggedX exP exTR 0 3 := (flaggedXB_iff _ _ _ _).mp (by decide +kernel)
+example : ¬ FlaggedT exP exTR 0 3 (fun _ => true) := fun h => absurd ((flaggedB_iff _ _ _ _ _).mpr h) (by decide +kernel)
 
-/-- the model's solution of `exP` is closed and flags exactly registers 0 and 2 -/
+/-- the model's solution of `exP` is closed and its signature is exactly registers 0, 2 and 3 -/
 example : closedB exP exTR 0 (solveM exP exTR 0 20 (startSol exP 0)) = true := by decide
-example : maskToList 5 (allFlags (solveM exP exTR 0 20 (startSol exP 0))) = [0, 2] := by decide
-example : (allFlags (solveM exP exTR 0 20 (startSol exP 0))).testBit 2 = true :=
+example : maskToList 5 (allFlagsX exP 0 (solveM exP exTR 0 20 (startSol exP 0))) = [0, 2, 3] := by decide +kernel
+example : (allFlagsX exP 0 (solveM exP exTR 0 20 (startSol exP 0))).testBit 3 = true :=
   model_sound_exec (P := exP) (T := exTR) (f := 0) (by decide +kernel)
     ⟨initSt exP 0, by decide +kernel, by unfold St.le; decide +kernel⟩ (by decide +kernel) (by decide +kernel)
+
+/-- f0: `call f1; return`; f1: `if … goto R; L: r0 := r2; goto L; R: return` — the callee reads
+register 2 only on a path that does not return -/
+def exQ : FProg :=
+  [ { nodes := [ { kills := [0, 1], succ := [1], call := some 1, kind := "call-internal" },
+                 { isRet := true, kind := "return" } ],
+      params := [0, 1, 2] },
+    { nodes := [ { succ := [1, 2], kind := "cbranch" },
+                 { reads := [2], kills := [0], succ := [1], kind := "assign" },
+                 { isRet := true, kind := "return" } ],
+      params := [0, 1, 2] } ]
+def exQT : Tables := ⟨[true, true], [[2], [2]]⟩
+def exQTR : Tables := ⟨[true, true], [[], []]⟩
+theorem exQT_eq : solveB exQ 3 8 (Tables.empty exQ.length) = (exQT, true) := by decide +kernel
+theorem exQTR_eq : solveR exQ 3 8 (Tables.empty exQ.length) = (exQTR, true) := by decide +kernel
+
+/-- **the remaining gap** (known finding `lost-read-in-callee`): register 2 is exposed at the entry of
+the caller `f0` (the callee reads it), but the analysis cannot record it in `f0` by design, because the
+caller only imports what the callee's RETURN site has flagged. -/
+theorem gap_example : Exposed exQ 0 0 2 ∧ ¬ FlaggedX exQ exQTR 0 2 :=
+  ⟨(oracle_correct exQ 3 8 exQT exQT_eq (by decide) (by decide)).mp (by decide),
+   fun h => absurd ((flaggedXB_iff _ _ _ _).mpr h) (by decide +kernel)⟩
 
 end CweModel.C14
